@@ -36,7 +36,7 @@ fn strategy(t: Tier) -> BoxedStrategy<LinCase> {
                 2 => (0u32..16).prop_map(|i| 1u16 << i),
                 10 => any::<u16>(),
             ];
-            (gen::cfg(kind, t.pick(600, 2000)), gen::engine_for(kind), gen::data_spec(), gen::data_spec(), cs)
+            (gen::cfg(kind, t.pick(1000, 2000)), gen::engine_for(kind), gen::data_spec(), gen::data_spec(), cs)
                 .prop_map(move |((cfg, _), eng, a, b, c)| LinCase { kind, eng, cfg, a, b, c })
         })
         .boxed()
